@@ -120,6 +120,17 @@ def run(ctx):
     for (buf, sync, batch) in ([variants[ctx.seed % 4]] if quick else variants[:2]):
         shapes.append({"id": len(shapes), "ops": big, "cuts": "near" if quick else "all", "stride": 211, "bufsize": buf, "segsize": 65536,
                        "sync": sync, "batch": batch, "seed": ctx.seed * 100 + 99, "_work": 2000 if quick else 60000})
+    # records larger than the configured segment size (legal: such a record gets a segment of its own)
+    huge = [
+        [{"op": "Append", "type": "entry", "size": 7}, {"op": "Append", "type": "raft_entry", "size": 70000},
+         {"op": "Append", "type": "entry", "size": 1}, {"op": "Append", "type": "raft_state", "size": 600}],
+        [{"op": "Append", "type": "raft_state", "size": 0}, {"op": "Append", "type": "raft_snapshot", "size": 70000}],
+        [{"op": "Append", "type": "raft_snapshot", "size": 131072}, {"op": "Rotate"}, {"op": "Append", "type": "entry", "size": 7}],
+    ]
+    for k, ops in enumerate(huge if not quick else huge[:2]):
+        buf, sync, batch = variants[(k + ctx.seed) % 4]
+        shapes.append({"id": len(shapes), "ops": ops, "cuts": "near", "stride": 4099 + 2 * ctx.seed, "bufsize": buf, "segsize": 65536,
+                       "sync": sync, "batch": batch, "seed": ctx.seed * 100 + 90 + k, "_work": 1500})
     ctx.log("M2: %d TLC shapes -> %d driver runs" % (len(hists), len(shapes)))
     traces = run_driver(ctx, shapes)
     order = sorted(traces)
@@ -177,7 +188,7 @@ def run(ctx):
     ctx.evidence("fault_enumeration", {
         "evaluations": cuts, "distinct_nontrivial": len(distinct),
         "rule": "record-sequence shapes generated by TLC -simulate from Wal.tla (types x payload sizes {0,1,7,600,4096} x rotations) plus a "
-                "size-triggered-rotation shape, built with the real wal.Manager under {buffer size, SyncOnWrite, batched AppendRecords} variants; "
+                "size-triggered-rotation shape and shapes with records larger than the segment size (70000, 131072 B), built with the real wal.Manager under {buffer size, SyncOnWrite, batched AppendRecords} variants; "
                 "one evaluation = one cut offset of the final segment (VerifyDir + Open + Replay + append 2 + Replay); non-trivial = the cut "
                 "falls strictly inside a record (torn tail), distinct by (shape, variant, offset)",
         "samples": [{"shape": {k: v for k, v in shapes[order[0]].items() if not k.startswith("_")}, "events": traces[order[0]][:10]}],
